@@ -31,17 +31,17 @@
     #[kani::proof]
     #[kani::unwind(6)]
     fn shim_sort_by_centroid_cmp() { sort_by_case::<0>(); sort_by_case::<1>(); sort_by_case::<2>(); sort_by_case::<3>(); sort_by_case::<4>(); }
-    // assume_specification <[T]>::reverse on Vec<Centroid>
-    #[kani::proof]
-    #[kani::unwind(6)]
-    fn shim_reverse_centroids() {
-        let x = [any_centroid(), any_centroid(), any_centroid(), any_centroid()];
-        let n: usize = kani::any(); kani::assume(n <= 4);
-        let mut b: Vec<Centroid> = x[..n].to_vec();
+    // assume_specification <[T]>::reverse on Vec<Centroid> (concrete lengths 0..=5)
+    fn reverse_case<const N: usize>() {
+        let x: [Centroid; N] = core::array::from_fn(|_| any_centroid());
+        let mut b: Vec<Centroid> = x.to_vec();
         b.reverse();
-        assert!(b.len() == n);
-        let i: usize = kani::any(); kani::assume(i < n); assert!(same(&b[i], &x[n - 1 - i]));
+        assert!(b.len() == N);
+        let i: usize = kani::any(); if i < N { assert!(same(&b[i], &x[N - 1 - i])); }
     }
+    #[kani::proof]
+    #[kani::unwind(7)]
+    fn shim_reverse_centroids() { reverse_case::<0>(); reverse_case::<1>(); reverse_case::<2>(); reverse_case::<3>(); reverse_case::<4>(); reverse_case::<5>(); }
     // td_codec vx_alloc_raw_centroids / vx_alloc_centroids_u16: Vec::<Centroid>::with_capacity(n) is empty
     #[kani::proof]
     #[kani::unwind(4)]
